@@ -76,8 +76,15 @@ def run(ctx: Ctx):
     want = driver(reqs)
     curves = []
     for k, p in enumerate(ps):
-        cr = s_stretch(p["N"], p["theta_s"], p["theta_b"], stagger="rho", Vstretching=p["vs"])
-        cw = s_stretch(p["N"], p["theta_s"], p["theta_b"], stagger="w", Vstretching=p["vs"])
+        try:
+            cr = s_stretch(p["N"], p["theta_s"], p["theta_b"], stagger="rho", Vstretching=p["vs"])
+            cw = s_stretch(p["N"], p["theta_s"], p["theta_b"], stagger="w", Vstretching=p["vs"])
+        except Exception as e:  # noqa: BLE001
+            ctx.case("s_stretch", [p["N"], p["theta_s"], p["theta_b"], p["vs"]], sample=dict(params=p), nontrivial=True)
+            ctx.violation("failing-input", "s_stretch", p, dict(implementation=type(e).__name__ + ": " + str(e)[:80],
+                          note="a valid vertical set-up is refused", theorem="Ladim.C12.stretch*_mono / stretch*_ends"), tags=dict(N=p["N"], vs=p["vs"], first="raised"))
+            curves.append(None)
+            continue
         curves.append((cr, cw))
         ctx.case("s_stretch", [p["N"], p["theta_s"], p["theta_b"], p["vs"]], sample=dict(params=p, Cs_r=[float(x) for x in cr[:4]]), nontrivial=p["N"] >= 2)
         ctx.count(f"vstretching:{p['vs']}")
@@ -96,7 +103,10 @@ def run(ctx: Ctx):
                 break
     # ---------------- sdepth vs the exact model, and the level-ordering monitor
     reqs, meta = [], []
-    for p, (cr, cw) in zip(ps, curves):
+    for p, cv in zip(ps, curves):
+        if cv is None:
+            continue
+        cr, cw = cv
         for vt in (1, 2):
             h = r.choice([1.0, 5.0, 37.5, 250.0, 1000.0, 5000.0, r.uniform(1, 5000)])
             hc = r.choice([0.0, 0.5, 1.0]) * h if vt == 1 else r.choice([0.0, 5.0, 20.0, 250.0, 2 * h])
@@ -204,8 +214,11 @@ def grid_levels(job):
     N = job["N"]
     imax, jmax = 8, 7
     h = r.uniform(job["hmin"], job["hmin"] * 4, size=(jmax, imax))
-    cr = s_stretch(N, job["theta_s"], job["theta_b"], stagger="rho", Vstretching=job["vs"])
-    cw = s_stretch(N, job["theta_s"], job["theta_b"], stagger="w", Vstretching=job["vs"])
+    try:
+        cr = s_stretch(N, job["theta_s"], job["theta_b"], stagger="rho", Vstretching=job["vs"])
+        cw = s_stretch(N, job["theta_s"], job["theta_b"], stagger="w", Vstretching=job["vs"])
+    except Exception as e:  # noqa: BLE001
+        return dict(error=type(e).__name__ + ": " + str(e)[:80])
     with lab.scratch() as d:
         lab.make_grid_forcing(d / "g.nc", [0], imax=imax, jmax=jmax, N=N, h=h, hc=job["hc"], Cs_r=cr, Cs_w=cw, vtransform=job["vt"])
         kw = dict(filename=d / "g.nc")
@@ -214,6 +227,10 @@ def grid_levels(job):
         if job["vinfo"]:
             kw["Vinfo"] = dict(N=N, hc=job["hc"], theta_s=job["theta_s"], theta_b=job["theta_b"], Vstretching=job["vs"], Vtransform=job["vt"])
         try:
+            if job["vinfo"] and job["seed"] % 2 == 0:
+                # the same vertical description serves a second grid (whole domain first, then the window):
+                # what it says must not depend on having been read before
+                Grid(filename=d / "g.nc", Vinfo=kw["Vinfo"])
             g = Grid(**kw)
         except BaseException as e:  # noqa: BLE001
             return dict(error=type(e).__name__ + ": " + str(e)[:80])
